@@ -428,11 +428,13 @@ def butler_batch(payload):
                 ("query_dimension_records", lambda: list(butler.query_dimension_records("detector", where=w, bind=bind, instrument="Cam", explain=False))),
                 ("legacy", lambda: list(butler.registry.queryDataIds(["visit", "detector"], where=w, bind=bind, instrument="Cam"))),
             ):
+                _t1 = _time.time()
                 try:
                     r = fn()
                     rec[name] = {"ok": True, "n": len(r)}
                 except Exception as e:  # noqa: BLE001
                     rec[name] = _where_fail(e)
+                rec[name]["seconds"] = round(_time.time() - _t1, 2)
             rec["seconds"] = round(_time.time() - _t0, 2)
             out.append(rec)
     finally:
